@@ -100,6 +100,19 @@ Example ex_merge_sticky :
   gd_merge_document (ex_merge_children 130) (ex_merge_children 130) [ex_name 129; ex_name 0] = GrOk [false; true].
 Proof. vm_compute. repeat split. Qed.
 
+(* ---- the schema of the document-level examples:
+   type Q { a: Q x: Int }  type M { a: Q x: Int m: M }  type S { a: Q x: Int } as query / mutation / subscription roots *)
+Definition ex_is_root (t : str) : bool := streq t [81] || streq t [77] || streq t [83].
+Definition ex_typing : vs_typing :=
+  mk_vst true
+         (fun op => Some (match op with OpQuery => [81] | OpMutation => [77] | OpSubscription => [83] end))
+         (fun t f => if negb (ex_is_root t) then None
+                     else if streq f [97] then Some [81]
+                     else if streq f [120] then Some [73;110;116]
+                     else if streq f [109] && streq t [77] then Some [77]
+                     else None)
+         ex_is_root.
+
 (* ---- the limit error of the @defer walks (former finding defer_walk_limit_swallowed, repaired)
 
    mutation { m { ...F } ...G1 }
@@ -125,21 +138,21 @@ Definition ex_defer_doc (n : nat) : document :=
          (seq 1 n).
 
 Example ex_defer_swallowed_old :
-  let o := gd_doc_walk_obs_old (ex_defer_doc 10) in
+  let o := gd_doc_walk_obs_old ex_typing (ex_defer_doc 10) in
   gwo_defer_truncated o = true /\ gwo_defer_root o = 0%N /\ gwo_recursion o = 0%N /\ gwo_used_limit o = 0%N.
 Proof. vm_compute. repeat split. Qed.
 
 (* the same document after the repair: one RecursionError *)
 Example ex_defer_limit_reported :
-  let o := gd_doc_walk_obs (ex_defer_doc 10) in
+  let o := gd_doc_walk_obs ex_typing (ex_defer_doc 10) in
   gwo_defer_truncated o = true /\ gwo_defer_root o = 0%N /\ gwo_recursion o = 1%N /\ gwo_used_limit o = 0%N.
 Proof. vm_compute. repeat split. Qed.
 
 (* one fragment less: the same @defer is reported, before and after the repair *)
 Example ex_defer_reported :
-  let o := gd_doc_walk_obs (ex_defer_doc 9) in
+  let o := gd_doc_walk_obs ex_typing (ex_defer_doc 9) in
   gwo_defer_truncated o = false /\ gwo_defer_root o = 1%N /\ gwo_recursion o = 0%N /\
-  gd_doc_walk_obs_old (ex_defer_doc 9) = o.
+  gd_doc_walk_obs_old ex_typing (ex_defer_doc 9) = o.
 Proof. vm_compute. repeat split. Qed.
 
 (* the label walk (validate_defer_labels) does not follow spreads: a fragment definition that no operation
@@ -149,11 +162,11 @@ Definition ex_label_doc (n : nat) : document :=
   [DOperation OpQuery None [] [] ex_leaf; DFragment ex_F [81] [] (ex_nest false n ex_leaf)].
 
 Example ex_label_limit_reported :
-  gwo_defer_truncated (gd_doc_walk_obs (ex_label_doc 499)) = false /\
-  gwo_recursion (gd_doc_walk_obs (ex_label_doc 499)) = 0%N /\
-  gwo_defer_truncated (gd_doc_walk_obs (ex_label_doc 500)) = true /\
-  gwo_recursion (gd_doc_walk_obs (ex_label_doc 500)) = 1%N /\
-  gwo_recursion (gd_doc_walk_obs_old (ex_label_doc 500)) = 0%N.
+  gwo_defer_truncated (gd_doc_walk_obs ex_typing (ex_label_doc 499)) = false /\
+  gwo_recursion (gd_doc_walk_obs ex_typing (ex_label_doc 499)) = 0%N /\
+  gwo_defer_truncated (gd_doc_walk_obs ex_typing (ex_label_doc 500)) = true /\
+  gwo_recursion (gd_doc_walk_obs ex_typing (ex_label_doc 500)) = 1%N /\
+  gwo_recursion (gd_doc_walk_obs_old ex_typing (ex_label_doc 500)) = 0%N.
 Proof. vm_compute. repeat split. Qed.
 
 (* nothing is reported twice by validate_defer: a subscription whose deduplicating walk already failed keeps
@@ -164,7 +177,39 @@ Definition ex_sub_chain_doc (n : nat) : document :=
          (seq 1 n).
 
 Example ex_sub_chain_not_duplicated :
-  let o := gd_doc_walk_obs (ex_sub_chain_doc 600) in
+  let o := gd_doc_walk_obs ex_typing (ex_sub_chain_doc 600) in
   gwo_defer_truncated o = true /\ gwo_recursion o = 2%N /\ gwo_used_limit o = 1%N /\
-  gd_doc_walk_obs_old (ex_sub_chain_doc 600) = o.
+  gd_doc_walk_obs_old ex_typing (ex_sub_chain_doc 600) = o.
 Proof. vm_compute. repeat split. Qed.
+
+(* ---- validate_selection_set (former finding selection_set_recursion_unguarded, repaired): nf fragments, each
+   nesting k fields or inline fragments around the spread of the next one.  Every fragment passes the cycle check and
+   every definition is far below the parser's limit, but the walk nests nf * (k + 1) deep. *)
+Definition ex_deep_doc_via (field : bool) (nf k : nat) : document :=
+  DOperation OpQuery None [] [] [SSpread (ex_G 0) []]
+  :: map (fun i => DFragment (ex_G i) [81] []
+                             (ex_nest field k (if Nat.ltb (S i) nf then [SSpread (ex_G (S i)) []] else ex_leaf)))
+         (seq 0 nf).
+Definition ex_deep_doc := ex_deep_doc_via true.
+
+(* per document: (RecursionError diagnostics, of which by validate_selection_set) *)
+Definition ex_sel_obs (t : vs_typing) (d : document) : N * N :=
+  let o := gd_doc_walk_obs t d in (gwo_recursion o, gwo_sel_limit o).
+
+Example ex_sel_limit_reported :
+  (* the witnesses of the former finding: the walk stops at depth 500 and says so (next to validate_unused_variables) *)
+  ex_sel_obs ex_typing (ex_deep_doc 50 100) = (2, 1)%N /\ ex_sel_obs ex_typing (ex_deep_doc_via false 50 100) = (2, 1)%N /\
+  ex_sel_obs vs_no_schema (ex_deep_doc 50 100) = (2, 1)%N /\
+  (* boundary: 5 fragments of 99 levels, the leaf field at level 500 and its empty selection set *)
+  ex_sel_obs ex_typing (ex_deep_doc 5 98) = (0, 0)%N /\ ex_sel_obs ex_typing (ex_deep_doc 5 99) = (2, 1)%N /\
+  (* a field that the schema does not have is not descended into (`b`), nor a fragment on a type that is not composite *)
+  ex_sel_obs ex_typing [DOperation OpQuery None [] [] [SField None [98] [] [] (ex_nest true 600 ex_leaf)]] = (1, 0)%N /\
+  ex_sel_obs vs_no_schema [DOperation OpQuery None [] [] [SField None [98] [] [] (ex_nest true 600 ex_leaf)]] = (2, 1)%N.
+Proof. vm_compute. repeat split. Qed.
+
+(* a spread of an undefined fragment is counted once per visit; a fragment is validated once per operation *)
+Example ex_sel_undefined :
+  gwo_undefined (gd_doc_walk_obs ex_typing
+    [DOperation OpQuery None [] [] [SSpread [85] []; SSpread ex_F []; SSpread ex_F []];
+     DFragment ex_F [81] [] [SSpread [85] []]]) = 2%N.
+Proof. vm_compute. reflexivity. Qed.
